@@ -49,6 +49,13 @@ func c17TypeOK(typ string, inName string, v zygo.Sexp) bool {
 	case "In":
 		h, ok := v.(*zygo.SexpHash)
 		return ok && h.TypeName == inName
+	case "*In":
+		p, ok := v.(*zygo.SexpPointer)
+		if !ok {
+			return false
+		}
+		h, ok := p.Target.(*zygo.SexpHash)
+		return ok && h.TypeName == inName
 	}
 	return false
 }
@@ -91,11 +98,11 @@ func c17Inspect(env *zygo.Zlisp, name string, decl c17decl, inName string) (prob
 	return
 }
 
-var c17Values = []string{"1", "-7", `"str"`, "2.5", "true", "nil", "[]", "[1 2]", `["a"]`, "[1.5]", "(IN q:1)", "(TT a:1)", "'c'", "(quote sym)", "(list 1 2)", "(hash q:1)", "12ULL", `[1 "a"]`, "(IN)"}
+var c17Values = []string{"1", "-7", `"str"`, "2.5", "true", "nil", "[]", "[1 2]", `["a"]`, "[1.5]", "(IN q:1)", "(TT a:1)", "'c'", "(quote sym)", "(list 1 2)", "(hash q:1)", "12ULL", `[1 "a"]`, "(IN)", "(& (IN q:2))", "(& r)", "(& 5)", "(& (EE))", "int64", "[nil 1]"}
 
 var c17Good = map[string][]string{
 	"int64": {"1", "-7", "0"}, "string": {`"str"`, `""`}, "float64": {"2.5", "-0.5"}, "bool": {"true", "false"},
-	"[]int64": {"[1 2]", "[]", "[5]"}, "[]string": {`["a"]`, `["a" "b"]`, "[]"}, "In": {"(IN q:1)", "(IN q:9)"},
+	"[]int64": {"[1 2]", "[]", "[5]"}, "[]string": {`["a"]`, `["a" "b"]`, "[]"}, "In": {"(IN q:1)", "(IN q:9)"}, "*In": {"(& (IN q:1))", "(& (IN q:8))"},
 }
 
 var c17Routes = []string{
@@ -111,7 +118,7 @@ func init() {
 	core.Register(&core.Prop{
 		ID:    "C17",
 		Level: "exploration",
-		Rule: "histories of 25 (quick) / 40 (thorough) steps on instances of freshly declared structs (fields int64, string, float64, bool, ([]int64), ([]string), another struct): each step picks one of 20 write routes (constructor, hset with symbol / quoted symbol / [k] / string key, (set r.f v), infix {r.f = v}, (= r.f v), :=, index assignment with symbol and string keys, derefSet and hset through (& r), unjson and unmsgpack of a payload carrying the type name, nested paths {r.in.q = v}, element writes {r.xs[0] = v}), a field (declared, undeclared) and one of 19 value kinds; a third of the steps are writes of an exactly matching value, and the struct is redeclared with different fields in between. " +
+		Rule: "histories of 25 (quick) / 40 (thorough) steps on instances of freshly declared structs (fields int64, string, float64, bool, ([]int64), ([]string), another struct whose name extends the outer struct's name, a pointer to it; plus a struct declared without fields): each step picks one of 20 write routes (constructor, hset with symbol / quoted symbol / [k] / string key, (set r.f v), infix {r.f = v}, (= r.f v), :=, index assignment with symbol and string keys, derefSet and hset through (& r), unjson and unmsgpack of a payload carrying the type name, nested paths {r.in.q = v}, element writes {r.xs[0] = v}), a field (declared, undeclared) and one of 25 value kinds (pointers to the right and to other structs, the type int64 itself, [nil 1]); a third of the steps are writes of an exactly matching value, and the struct is redeclared with different fields in between. " +
 			"After EVERY step the monitor inspects each live instance through the exported hash fields: keys must be symbols and declared in the definition in force when the instance was created, values must have the declared type (nil and [] accepted); a step that returned an error must leave the printed instance unchanged; a matching write must succeed and be readable. non-trivial = distinct history containing >=1 rejected write, >=1 accepted write and a redeclaration",
 		Assumptions: []string{
 			"nil is accepted for every field and [] for slice fields (the language's rule)",
@@ -128,12 +135,15 @@ func c17Run(c *core.Ctx, i int) *core.Result {
 	r := core.NewRng(c.Seed, "C17", i, 0)
 	res := &core.Result{}
 	tt := fmt.Sprintf("T%dx%d", i, c.Seed%100000)
-	in := fmt.Sprintf("In%dx%d", i, c.Seed%100000)
-	sub := func(s string) string { return strings.ReplaceAll(strings.ReplaceAll(s, "TT", tt), "IN", in) }
+	in := tt + "In" // the outer struct's name is a proper prefix of the inner one's
+	ee := fmt.Sprintf("E%dx%d", i, c.Seed%100000)
+	sub := func(s string) string {
+		return strings.ReplaceAll(strings.ReplaceAll(strings.ReplaceAll(s, "TT", tt), "IN", in), "EE", ee)
+	}
 	s := NewSutRun(true)
-	declOld := c17decl{"a": "int64", "s": "string", "f": "float64", "b": "bool", "xs": "[]int64", "ss": "[]string", "in": "In"}
-	declNew := c17decl{"a": "string", "f": "float64", "nw": "int64", "xs": "[]string", "in": "In"}
-	setup := sub(`(struct IN [(field q: int64)]) (struct TT [(field a: int64) (field s: string) (field f: float64) (field b: bool) (field xs: ([]int64)) (field ss: ([]string)) (field in: IN)]) (def r (TT a:1 s:"x" xs:[4 5] in:(IN q:3))) (def keep r)`)
+	declOld := c17decl{"a": "int64", "s": "string", "f": "float64", "b": "bool", "xs": "[]int64", "ss": "[]string", "in": "In", "pp": "*In"}
+	declNew := c17decl{"a": "string", "f": "float64", "nw": "int64", "xs": "[]string", "in": "In", "pp": "*In"}
+	setup := sub(`(struct IN [(field q: int64)]) (struct EE []) (struct TT [(field a: int64) (field s: string) (field f: float64) (field b: bool) (field xs: ([]int64)) (field ss: ([]string)) (field in: IN) (field pp: (* IN))]) (def r (TT a:1 s:"x" xs:[4 5] in:(IN q:3))) (def keep r) (def e0 (EE))`)
 	var hist []string
 	hist = append(hist, setup)
 	if o := s.Eval(setup+"\n", 0); o.Err != nil || o.Panic != "" {
@@ -141,10 +151,10 @@ func c17Run(c *core.Ctx, i int) *core.Result {
 		return res
 	}
 	// instance name -> object id; object id -> declaration in force at its creation
-	obj := map[string]int{"r": 0, "keep": 0}
-	objDecl := map[int]c17decl{0: declOld}
-	nextObj := 1
-	inst := map[string]c17decl{"r": declOld, "keep": declOld}
+	obj := map[string]int{"r": 0, "keep": 0, "e0": 1}
+	objDecl := map[int]c17decl{0: declOld, 1: c17decl{}}
+	nextObj := 2
+	inst := map[string]c17decl{"r": declOld, "keep": declOld, "e0": c17decl{}}
 	sync := func() {
 		for n, id := range obj {
 			inst[n] = objDecl[id]
@@ -152,7 +162,7 @@ func c17Run(c *core.Ctx, i int) *core.Result {
 	}
 	cur := declOld
 	redeclared := false
-	fields := []string{"a", "s", "f", "b", "xs", "ss", "in", "zz", "nw"}
+	fields := []string{"a", "s", "f", "b", "xs", "ss", "in", "zz", "nw", "pp"}
 	steps := thorN(c, 25, 40)
 	rejected, accepted := 0, 0
 	check := func(src string, err bool, before map[string]string) bool {
@@ -182,9 +192,11 @@ func c17Run(c *core.Ctx, i int) *core.Result {
 		matching := false
 		switch {
 		case st == steps/2 && !redeclared:
-			src = sub(`(struct TT [(field a: string) (field f: float64) (field nw: int64) (field xs: ([]string)) (field in: IN)]) (def r2 (TT a:"new" nw:5 in:(IN q:1)))`)
+			src = sub(`(struct TT [(field a: string) (field f: float64) (field nw: int64) (field xs: ([]string)) (field in: IN) (field pp: (* IN))]) (def r2 (TT a:"new" nw:5 in:(IN q:1)))`)
 			redeclared = true
 			res.Ev("redeclarations", 1)
+		case r.N(12) == 0: // a struct declared without fields accepts no key of any kind
+			src = sub([]string{`(hset e0 "k" 1)`, "(hset e0 5 1)", "(hset e0 [1 2] 1)", `{e0["k"] = 1}`, "{e0[3] = 1}", "(hset e0 k: 1)", "(set e0.k 1)", "{e0.k = 1}", "(hset e0 (quote k) 1)", "(hset e0 'c' 1)", `(def e0 (EE))`}[r.N(11)])
 		case r.N(3) == 0: // a write that must be accepted
 			target := "r"
 			d := inst[target]
